@@ -126,7 +126,7 @@ fn decide(cx: &mut Ctx, family: &str, ph: bool, sig: &[u8; 64], msg: &[u8], pk: 
 
 pub fn run(cx: &mut Ctx) {
     let maxlen = cx.tier.pick(40usize, 300, 1100);
-    let seeds_per_len = cx.tier.pick(1usize, 1, 3);
+    let seeds_per_len = cx.tier.pick(1usize, 1, 12);
     let l: [u8; 32] = unhex(L_BYTES).try_into().unwrap();
     let small = small_order_encodings();
     let mut idx = 0u64;
@@ -285,7 +285,7 @@ pub fn run(cx: &mut Ctx) {
     }
 
     // ------------------------------------------------ small-order / non-canonical A and R
-    let per = cx.tier.pick(1usize, 6, 40);
+    let per = cx.tier.pick(1usize, 6, 400);
     for (en, enc) in &small {
         for rep in 0..per {
             idx += 1;
